@@ -435,14 +435,9 @@ func newLive(r *gen.Rand, version string, nprim int, spare bool) *live {
 	return l
 }
 
-func delayFn(tab []int64, log *[]int) rueidis.RetryDelayFn {
-	return func(attempts int, cmd rueidis.Completed, err error) time.Duration {
-		*log = append(*log, attempts)
-		if attempts-1 < len(tab) && attempts >= 1 {
-			return time.Duration(tab[attempts-1])
-		}
-		return -1
-	}
+// delayFn answers from the table and records every consultation with its position in the arrival order.
+func delayFn(tab []int64, l *ro.ConsultLog, cl *fc.Cluster) rueidis.RetryDelayFn {
+	return ro.DelayFn(tab, l, cl.Seq)
 }
 
 func genDelays(r *gen.Rand) []int64 {
@@ -572,9 +567,9 @@ func runDoOnce(c Case, try int) (res obs.Result, raced bool) {
 	maxRedir := gen.Pick(r, []int{0, 0, 1, 2, 3})
 	disableRetry := r.Chance(1, 4)
 	delays := genDelays(r)
-	var dlog []int
+	dlog := &ro.ConsultLog{}
 	cli, err := rueidis.NewClient(rueidis.ClientOption{InitAddress: []string{l.prims[0]}, DialCtxFn: l.cl.Dial, DisableCache: true, PipelineMultiplex: -1,
-		DisableRetry: disableRetry, RetryDelay: delayFn(delays, &dlog), ClusterOption: rueidis.ClusterOption{MaxMovedRedirections: maxRedir}})
+		DisableRetry: disableRetry, RetryDelay: delayFn(delays, dlog, l.cl), ClusterOption: rueidis.ClusterOption{MaxMovedRedirections: maxRedir}})
 	if err != nil {
 		res.Oracle, res.Site, res.Class = "harness: NewClient failed: "+err.Error(), "harness", "setup"
 		return
@@ -635,7 +630,7 @@ func runDoOnce(c Case, try int) (res obs.Result, raced bool) {
 		ro.OptAddr(w0), ro.Addrs(known), obs.List(env), obs.List(sends), final.Coq(), ro.OptAddr(wAfter))
 	res.Sig = fmt.Sprint("do", version, nprim, write, stepsDesc(steps), migr, maxRedir, disableRetry, delays, given[slot] == w0)
 	res.Nontrivial = len(arr) > 1
-	res.Obs = map[string]any{"sends": obsSends, "final": final.String(), "steps": stepsDesc(steps), "migr": migr, "max": maxRedir, "retry": !disableRetry, "delays": delays, "delaycalls": dlog, "w0": w0, "wafter": wAfter}
+	res.Obs = map[string]any{"sends": obsSends, "final": final.String(), "steps": stepsDesc(steps), "migr": migr, "max": maxRedir, "retry": !disableRetry, "delays": delays, "delaycalls": dlog.Calls(), "w0": w0, "wafter": wAfter}
 	res.Site = "cluster.go:do"
 	// ---- direct oracle ----
 	fail := func(class, f string, a ...any) {
@@ -680,7 +675,11 @@ func runDoOnce(c Case, try int) (res obs.Result, raced bool) {
 		}
 	}
 	if *propFlag == "C28" {
-		retryOracle(&res, "cluster.go:do", !write, !disableRetry, delays, ticks, func(i int) bool { return false }, true)
+		seqs := make([]int64, len(arr))
+		for i, a := range arr {
+			seqs[i] = a.Seq
+		}
+		retryOracle(&res, "cluster.go:do", !write, !disableRetry, dlog.Calls(), ticks, seqs)
 	}
 	if *propFlag == "C03" && write {
 		n := 0
@@ -696,20 +695,16 @@ func runDoOnce(c Case, try int) (res obs.Result, raced bool) {
 	return
 }
 
-// retryOracle: every re-send that follows a non-redirect reply must be justified by the policy.
-func retryOracle(res *obs.Result, site string, retryable, retryOn bool, delays []int64, ticks []ro.Reply, ctxDone func(i int) bool, cluster bool) {
-	attempts := 1
+// retryOracle: every re-send that follows a non-redirect reply must be justified by the policy, judged by what
+// the client actually asked RetryDelay between the two sends.
+func retryOracle(res *obs.Result, site string, retryable, retryOn bool, cons []ro.Consult, ticks []ro.Reply, seqs []int64) {
 	for i := 0; i+1 < len(ticks); i++ {
 		k := ticks[i].Kind
 		if k == "moved" || k == "ask" || k == "redirect" || k == "expired" {
 			continue
 		}
 		// a further send happened after reply i: it is a retry
-		allowed := k == "transport" || k == "loading" || (cluster && (k == "tryagain" || k == "clusterdown"))
-		d := int64(-1)
-		if attempts-1 < len(delays) {
-			d = delays[attempts-1]
-		}
+		allowed := k == "transport" || k == "loading" || k == "tryagain" || k == "clusterdown"
 		why := ""
 		switch {
 		case !retryable:
@@ -718,15 +713,12 @@ func retryOracle(res *obs.Result, site string, retryable, retryOn bool, delays [
 			why = "DisableRetry is set"
 		case !allowed:
 			why = "the reply " + ticks[i].String() + " is not a retryable failure"
-		case d < 0:
-			why = fmt.Sprintf("RetryDelay(%d) = %d is negative", attempts, d)
-		case ctxDone(i):
-			why = "the context was done"
+		default:
+			why = ro.RetryJustified(cons, seqs[i], seqs[i+1], "")
 		}
 		if why != "" && res.Oracle == "" {
 			res.Oracle, res.Site, res.Class = fmt.Sprintf("re-send after reply %d (%s): %s", i, ticks[i], why), site, "retry-policy"
 		}
-		attempts++
 	}
 }
 
